@@ -215,12 +215,13 @@ def run(ctx):
     # parser delivers exactly the grammar's parameter kinds, so a built operand comes back as the same operand (C03 / C17 legs)
     import c03
     rp03 = Replay()
-    c03.mask_parameter_bits(ctx, S10, q, rp03)
-    c03.enum_parameter_values(ctx, S10, q, rp03)
+    import common as _common
+    _common.composed(ctx, "C03-mask-parameters", lambda: c03.mask_parameter_bits(ctx, S10, q, rp03))
+    _common.composed(ctx, "C03-enum-parameters", lambda: c03.enum_parameter_values(ctx, S10, q, rp03))
     # a type request answers with an earlier declaration only when that declaration carries the same arguments (C13's leg on
     # Instruction::is_type_identical: operand lists of every length pair)
     import c13
-    c13.type_identity(ctx, q, mf, ms, registry, rp03, 3 if ctx.tier == "quick" else 5)
+    _common.composed(ctx, "C13-type-identity", lambda: c13.type_identity(ctx, q, mf, ms, registry, rp03, 3 if ctx.tier == "quick" else 5))
     rp03.close()
     ctx.extra["states"] = checked
     ctx.extra["transitions"] = checked
